@@ -82,6 +82,23 @@ Inductive op :=
 | HName (h : nat)
 | HSync (h : nat).
 
+Definition op_handle_of (o : op) : option nat :=
+  match o with
+  | HRead h _ | HReadAt h _ _ | HWrite h _ | HWriteAt h _ _ | HWriteString h _ | HSeek h _ _
+  | HTruncate h _ | HClose h | HReaddir h _ | HReaddirnames h _ | HStat h | HName h | HSync h => Some h
+  | _ => None
+  end.
+
+Definition op_set_handle (o : op) (h : nat) : op :=
+  match o with
+  | HRead _ n => HRead h n | HReadAt _ n off => HReadAt h n off | HWrite _ b => HWrite h b
+  | HWriteAt _ b off => HWriteAt h b off | HWriteString _ b => HWriteString h b
+  | HSeek _ off w => HSeek h off w | HTruncate _ n => HTruncate h n | HClose _ => HClose h
+  | HReaddir _ n => HReaddir h n | HReaddirnames _ n => HReaddirnames h n | HStat _ => HStat h
+  | HName _ => HName h | HSync _ => HSync h
+  | _ => o
+  end.
+
 Definition res_is_err (r : res) : bool :=
   match r with
   | RErr _ | RPanic => true
